@@ -151,9 +151,10 @@ PROPS = {
         assumptions=[A_REAL, A_LEN, "NumPy array-algebra contracts (linspace, flatten, repeat, insert, pad, reshape, nanmean, ...)"],
     ),
     'C04': dict(
-        monitor_quick=[RF + c + '.rfa' for c in ('PiecewiseConstantRFA', 'FunctionRFA', 'LinearFixedRFA', 'ExpFixedRFA')],
+        monitor_quick=[RF + c + '.rfa' for c in ('PiecewiseConstantRFA', 'FunctionRFA', 'LinearFixedRFA', 'ExpFixedRFA', 'LinearAdaptiveRFA', 'ExpAdaptiveRFA')],
         functions=[RF + 'AbstractRFA.__init__'] + [RF + c + '.__init__' for c in ('LinearFixedRFA', 'ExpFixedRFA', 'LinearAdaptiveRFA', 'ExpAdaptiveRFA')]
-        + [RF + c + '.rfa' for c in ('PiecewiseConstantRFA', 'FunctionRFA', 'LinearFixedRFA', 'ExpFixedRFA')]
+        + [RF + c + '.rfa' for c in ('PiecewiseConstantRFA', 'FunctionRFA', 'LinearFixedRFA', 'ExpFixedRFA', 'LinearAdaptiveRFA', 'ExpAdaptiveRFA')]
+        + [RF + 'LinearAdaptiveRFA.get_adaptive_transition_points']
         + [SAU + f for f in ('oversample_linspace', 'oversample_piecewise_constant', 'extend_linspace', 'extend_constant')]
         + [IA + m for m in ('__init__', '__getitem__', '__setitem__', 'nr_of_full_intervals')],
         level='proof',
